@@ -1,3 +1,267 @@
+import Cello.RBTree
 import Driver.Common
-/- driver for engine `tree` — stub, replaced when the engine is built -/
-def main (_args : List String) : IO Unit := IO.println "O not-implemented"
+/- driver for engine `tree` (C03): interprets the op files of harness/h_tree.c on the model `Cello.RB.step`
+   (the very function the theorems of CelloProofs/Props/C03.lean are about) and prints the same `O` lines:
+
+     auto 0|1                 dump the whole tree after every mutating op (default 1) or only `n=`
+     new T i|s [k v]…         set T k v      rem T k      get T k      mem T k      len T      resize T n
+     assign T S               copy T S       iter T       riter T      del T        check T
+     remroot T  /  rem2 T     rem of the root's key / of the key of the first node (preorder) with two children
+
+   dump = `n=<nitems> ok=<invariants hold> h=<height> t=<preorder (colour key:value left right) | #hash when n>40>` -/
+open Cello.RB
+
+abbrev KT := T Key Int
+abbrev KTree := Tree Key Int
+
+def mixstep (h x : UInt64) : UInt64 := (h ^^^ x) * 0x100000001b3
+def fnvInit : UInt64 := 0xcbf29ce484222325
+
+def keyHash : Key → UInt64
+  | .i n => UInt64.ofInt n
+  | .s x => x.toUTF8.foldl (fun h b => mixstep h b.toUInt64) fnvInit
+
+def treeHash : KT → UInt64
+  | .nil => 0x9E3779B97F4A7C15
+  | .node c l k v r =>
+    [if c = .R then 1 else 0, keyHash k, UInt64.ofInt v, treeHash l, treeHash r].foldl mixstep fnvInit
+
+def hex16 (x : UInt64) : String :=
+  let d := Nat.toDigits 16 x.toNat
+  String.ofList (List.replicate (16 - d.length) '0' ++ d)
+
+def showKey : Key → String
+  | .i n => toString n
+  | .s x => x
+
+def preorder : KT → String
+  | .nil => "."
+  | .node c l k v r =>
+    "(" ++ (if c = .R then "R" else "B") ++ showKey k ++ ":" ++ toString v ++ " " ++ preorder l ++ " " ++ preorder r ++ ")"
+
+def rootKey : KT → Option Key
+  | .nil => none
+  | .node _ _ k _ _ => some k
+
+def firstTwoChildren : KT → Option Key
+  | .nil => none
+  | .node _ l k _ r =>
+    match l, r with
+    | .node .., .node .. => some k
+    | _, _ => (firstTwoChildren l).orElse (fun _ => firstTwoChildren r)
+
+/-! statistics only: which branches of `setFix` / `remFix` an operation takes (mirrors their tests; not part of the model) -/
+
+def setFixTags : KT → Path Key Int → List String
+  | _, [] => ["set:root"]
+  | _, [f] => if f.c = .B then ["set:black-parent"] else ["set:ub"]
+  | t, f :: g :: up =>
+    if f.c = .B then ["set:black-parent"]
+    else if color g.sib = .R then
+      "set:red-uncle" :: setFixTags (mk { g with c := .R, sib := setColor .B g.sib } (mk { f with c := .B } t)) up
+    else if g.dir = f.dir then ["set:outer-rotation"] else ["set:inner-rotation"]
+
+def insTags : KT → Path Key Int → Key → List String
+  | .nil, p, k => setFixTags (.node .R .nil k 0 .nil) p
+  | .node c l nk nv r, p, k =>
+    match Key.cmp nk k with
+    | .eq => ["set:update"]
+    | .lt => insTags l ({ dir := .L, c := c, k := nk, v := nv, sib := r } :: p) k
+    | .gt => insTags r ({ dir := .Rt, c := c, k := nk, v := nv, sib := l } :: p) k
+
+def remBodyTags (f : Frame Key Int) : List String × Bool :=   -- tags, and whether the loop continues at the parent
+  match f.sib with
+  | .nil => (["rem:ub"], false)
+  | .node sc sl _ _ sr =>
+    if f.c = .B ∧ sc = .B ∧ color sl = .B ∧ color sr = .B then (["rem:all-black"], true)
+    else if f.c = .R ∧ sc = .B ∧ color sl = .B ∧ color sr = .B then (["rem:red-parent"], false)
+    else
+      let near := if f.dir = .L then color sl = .R ∧ color sr = .B else color sr = .R ∧ color sl = .B
+      ((if sc = .B ∧ near then ["rem:near-nephew-rotation"] else []) ++ ["rem:far-nephew-rotation"], false)
+
+def remFixTags : Path Key Int → List String
+  | [] => ["rem:fix-reached-root"]
+  | f :: rest =>
+    if color f.sib = .R then
+      "rem:red-sibling" :: (remBodyTags (remCase2 f rest).1).1
+    else
+      let r := remBodyTags f
+      if r.2 then r.1 ++ remFixTags rest else r.1
+
+def spliceTags (x : Loc Key Int) : List String :=
+  (if x.path.isEmpty then ["rem:root-node"] else []) ++
+  (if x.c = .B then
+     (if color x.child = .R then ["rem:black-with-red-child"] else ["rem:black-leaf"]) ++ remFixTags x.path
+   else ["rem:red-leaf"])
+
+def remTags : KT → Path Key Int → Key → List String
+  | .nil, _, _ => ["rem:absent"]
+  | .node c l nk nv r, p, k =>
+    match Key.cmp nk k with
+    | .eq =>
+      match l, r with
+      | .node .., .node .. =>
+        match maxLoc l [] with
+        | none => ["rem:ub"]
+        | some pr => "rem:two-children" ::
+            spliceTags { pr with path := pr.path ++ { dir := .L, c := c, k := pr.k, v := pr.v, sib := r } :: p }
+      | _, _ => spliceTags ⟨c, l, nk, nv, r, p⟩
+    | .lt => remTags l ({ dir := .L, c := c, k := nk, v := nv, sib := r } :: p) k
+    | .gt => remTags r ({ dir := .Rt, c := c, k := nk, v := nv, sib := l } :: p) k
+
+def opTags (st : Store KTree) : Op Key Int → List String
+  | .set t k _ => match Store.get? st t with | some m => insTags m.root [] k | none => []
+  | .rem t k => match Store.get? st t with | some m => remTags m.root [] k | none => []
+  | _ => []
+
+def bumpAll (tags : List String) (acc : List (String × Nat)) : List (String × Nat) :=
+  tags.foldl (fun acc tag =>
+    if acc.any (·.1 = tag) then acc.map (fun e => if e.1 = tag then (e.1, e.2 + 1) else e) else acc ++ [(tag, 1)]) acc
+
+def bigLimit : Nat := 40
+
+def dumpTree (m : KTree) : String :=
+  let ok := if m.validB Key.cmp then "1" else "0"
+  s!"n={m.nitems} ok={ok} h={height m.root} t=" ++
+    (if m.nitems > bigLimit then "#" ++ hex16 (treeHash m.root) else preorder m.root)
+
+def showItems (l : List (Key × Int)) (term : Bool) : String :=
+  let body :=
+    if l.length > bigLimit then
+      s!"#{l.length}:" ++ hex16 (l.foldl (fun h kv => mixstep (mixstep h (keyHash kv.1)) (UInt64.ofInt kv.2)) fnvInit)
+    else " ".intercalate (l.map (fun kv => showKey kv.1 ++ ":" ++ toString kv.2))
+  (if term then "" else "NOT-TERMINATED ") ++ body
+
+structure DState where
+  st : Store KTree := []
+  isStr : Store Bool := []
+  auto : Bool := true
+  -- statistics (S line)
+  nops : Nat := 0
+  nub : Nat := 0
+  tags : List (String × Nat) := []
+
+def parseKey (str : Bool) (s : String) : Option Key :=
+  if str then (if s.isEmpty then none else some (.s s)) else s.toInt?.map .i
+
+def parsePairs (str : Bool) : List String → Option (List (Key × Int))
+  | [] => some []
+  | [_] => none
+  | k :: v :: rest => do
+    let k ← parseKey str k
+    let v ← v.toInt?
+    let r ← parsePairs str rest
+    pure ((k, v) :: r)
+
+def showObs : Obs Key Int → String
+  | .done => "ok"
+  | .val v => toString v
+  | .bool b => if b then "1" else "0"
+  | .nat n => toString n
+  | .items l t => showItems l t
+  | .err .KeyError => "KeyError"
+  | .err .FormatError => "FormatError"
+  | .noobj => "noobj"
+
+/-- run one parsed op through `step`; `dumpOf` = the tree whose dump follows the observation (mutating ops) -/
+def exec (d0 : DState) (name : String) (op : Op Key Int) (dumpOf : Option Nat) : IO DState := do
+  let d := { d0 with tags := bumpAll (opTags d0.st op) d0.tags }
+  match step Key.cmp d.st op with
+  | none =>
+    IO.println s!"O {name} ub"
+    return { d with nops := d.nops + 1, nub := d.nub + 1 }
+  | some (st', .noobj) =>
+    IO.println "O bad-op"
+    return { d with st := st' }
+  | some (st', o) =>
+    let tail := match dumpOf.bind (fun t => Store.get? st' t) with
+      | some m => " " ++ (if d.auto then dumpTree m else s!"n={m.nitems}")
+      | none => ""
+    IO.println s!"O {name} {showObs o}{tail}"
+    return { d with st := st', nops := d.nops + 1 }
+
+def main (args : List String) : IO Unit := do
+  let lines ← Driver.inputLines args
+  let mut d : DState := {}
+  for l in lines do
+    if Driver.isSkippable l then continue
+    let ws := Driver.words l
+    let typeOf (t : Nat) : Option Bool := Store.get? d.isStr t
+    match ws with
+    | ["auto", x] =>
+      match x.toNat? with
+      | some n => d := { d with auto := n != 0 }
+      | none => IO.println "O bad-op"
+    | "new" :: t :: ty :: rest =>
+      match t.toNat?, (if ty = "i" then some false else if ty = "s" then some true else none) with
+      | some t, some str =>
+        match parsePairs str rest with
+        | some init =>
+          d ← exec d "new" (.new t init) (some t)
+          d := { d with isStr := Store.put d.isStr t str }
+        | none => IO.println "O bad-op"
+      | _, _ => IO.println "O bad-op"
+    | ["set", t, k, v] =>
+      match t.toNat?.bind (fun t => (typeOf t).map (t, ·)), v.toInt? with
+      | some (t, str), some v =>
+        match parseKey str k with
+        | some k => d ← exec d "set" (.set t k v) (some t)
+        | none => IO.println "O bad-op"
+      | _, _ => IO.println "O bad-op"
+    | [opn, t, k] =>
+      match t.toNat? with
+      | none => IO.println "O bad-op"
+      | some t =>
+        if opn = "rem" || opn = "get" || opn = "mem" then
+          match (typeOf t).bind (fun str => parseKey str k) with
+          | some k =>
+            if opn = "rem" then d ← exec d "rem" (.rem t k) (some t)
+            else if opn = "get" then d ← exec d "get" (.get t k) none
+            else d ← exec d "mem" (.mem t k) none
+          | none => IO.println "O bad-op"
+        else if opn = "resize" then
+          match k.toNat? with
+          | some n => d ← exec d "resize" (.resize t n) (some t)
+          | none => IO.println "O bad-op"
+        else if opn = "assign" || opn = "copy" then
+          match k.toNat? with
+          | some s =>
+            match typeOf s with
+            | some str =>
+              if opn = "assign" then
+                if (typeOf t).isSome then
+                  d ← exec d "assign" (.assign t s) (some t)
+                  d := { d with isStr := Store.put d.isStr t str }
+                else IO.println "O bad-op"
+              else
+                d ← exec d "copy" (.copy t s) (some t)
+                d := { d with isStr := Store.put d.isStr t str }
+            | none => IO.println "O bad-op"
+          | none => IO.println "O bad-op"
+        else IO.println "O bad-op"
+    | [opn, t] =>
+      match t.toNat? with
+      | none => IO.println "O bad-op"
+      | some t =>
+        if opn = "len" then d ← exec d "len" (.len t) none
+        else if opn = "iter" then d ← exec d "iter" (.iter t) none
+        else if opn = "riter" then d ← exec d "riter" (.riter t) none
+        else if opn = "del" then
+          d ← exec d "del" (.del t) none
+          d := { d with isStr := Store.erase d.isStr t }
+        else if opn = "remroot" || opn = "rem2" then
+          -- the key is chosen by looking at the tree: the root's, or the first node in preorder with two children
+          match Store.get? d.st t with
+          | none => IO.println "O bad-op"
+          | some m =>
+            match (if opn = "remroot" then rootKey m.root else firstTwoChildren m.root) with
+            | none => IO.println s!"O {opn} none"
+            | some k => d ← exec d "rem" (.rem t k) (some t)
+        else if opn = "check" then
+          match Store.get? d.st t with
+          | some m => IO.println s!"O check {dumpTree m}"
+          | none => IO.println "O bad-op"
+        else IO.println "O bad-op"
+    | _ => IO.println "O bad-op"
+  IO.println s!"S ops={d.nops} ub={d.nub} trees={d.st.length}"
+  IO.println ("S branches " ++ " ".intercalate (d.tags.map (fun e => s!"{e.1}={e.2}")))
